@@ -39,5 +39,39 @@ Example C14_nonvacuous :
       ODisp DPending; OGauge 2 2]].
 Proof. vm_compute. reflexivity. Qed.
 
+
+(* ------------------------------------------------------------------------------------------ *)
+(* Server half (model: Server.v; proofs: Server*.v; statements restated from ServerProps.v).
+   From here on unqualified names are the SERVER model's. *)
+From TarpcV Require Import TimerWheel Server ServerMon ServerFuel ServerProps ServerWitness.
+
+(* Requests / MaxRequests over EVERY transport (any state type, any behaviour, any environment
+   `ctl` that changes it between polls, any fuel measure), every configuration (limit or none,
+   response buffer) and every op list: the per-poll call log of the Requests stream satisfies
+   the same contract monitor, with every failed write fatal.  `polls_of` stops at the first poll
+   that yielded an error (boundary stops_after_error: tarpc's own execute() stops there; an
+   application that keeps polling after an error makes the channel write after a reported
+   failure - e1_witness refutes the unrestricted statement). *)
+Theorem C14_server_contract : forall (T C : Type) (tp : transport T response cmsg) (ctl : T -> C -> T)
+    (tfuel : T -> nat) (c : cfg) (t0 : T) (ops : list (op C)),
+  contract_ok (fun _ : response => true) (polls_of ops (fst (run tp ctl tfuel c t0 ops))) = true.
+Proof. exact ServerProps.C14_server_contract. Qed.
+
+(* every poll of the Requests stream returns: no poll runs out of fuel (linear in the queue
+   lengths), for every transport whose fuel measure decreases with every item it hands out *)
+Theorem C14_server_poll_total : forall (T C : Type) (tp : transport T response cmsg) (ctl : T -> C -> T)
+    (tfuel : T -> nat) (c : cfg) (t0 : T) (ops : list (op C)),
+  tfuel_ok tp tfuel -> no_fuel (fst (run tp ctl tfuel c t0 ops)) = true.
+Proof. exact ServerProps.C14_server_total. Qed.
+
+Theorem C14_server_unrestricted_refuted :
+  stops_after_error e1_cfg e1_ops (tr_of e1_cfg e1_ops) = false
+  /\ contract_ok (fun _ : response => true) (polls_all e1_ops (tr_of e1_cfg e1_ops)) = false
+  /\ c14s_ok e1_ops (tr_of e1_cfg e1_ops) = true.
+Proof. exact e1_witness. Qed.
+
 Print Assumptions C14_client_contract.
 Print Assumptions C14_client_poll_total.
+Print Assumptions C14_server_contract.
+Print Assumptions C14_server_poll_total.
+Print Assumptions C14_server_unrestricted_refuted.
